@@ -747,6 +747,8 @@ def main():
             chk.count(f"sink kind {g['tk']}: dynamic flows", 1)
             for c in {c for c, _ in g["chain"] if c != "broken"} or {"direct"}:
                 chk.count(f"carrier {c}: dynamic flows", 1)
+            if any(c == "op" and v % 7 == 6 for c, v in g["chain"]):
+                chk.count("self-redefinition, copy, operator (op.6): dynamic flows", 1)
             if any(c == "param" and v % 8 >= 3 for c, v in g["chain"]):
                 chk.count("parameter passing with several keyword arguments: dynamic flows", 1)
             chk.nontrivial_case((g["sk"], g["tk"], chain_text(norm_gadget(g)["chain"])))
@@ -844,6 +846,7 @@ def main():
         chk.require("source behind a call statement with two possible callees: dynamic flows", 6 if not thorough else 150)
         chk.require("sink rule with several targets: dynamic flows", 8 if not thorough else 150)
         chk.require("parameter passing with several keyword arguments: dynamic flows", 8 if not thorough else 150)
+        chk.require("self-redefinition, copy, operator (op.6): dynamic flows", 20 if not thorough else 400)
         chk.require("restricted rule that applies: dynamic flows", 20 if not thorough else 400)
         chk.require("decoy sites (same name, excluded by the restriction)", 20 if not thorough else 400)
         if chk.counters.get("gadgets intended positive but not observed dynamically", 0) or \
